@@ -436,6 +436,12 @@ example : parseName [0xC0, 0] ⟨0, 2⟩ = .error .compression ∧
     parseName [0xC0, 2, 0xC0, 0] ⟨0, 4⟩ = .error .compression ∧ parseName [0xC0, 2, 0xC0, 0] ⟨2, 4⟩ = .error .compression ∧
     parseName (62 :: List.replicate 62 97 ++ [0xC0, 0]) ⟨63, 65⟩ = .error .longName := ⟨rfl, rfl, rfl, rfl⟩
 
+/-- **everything the name parser accepts is a legal DNS name** - labels of 1..63 octets, reported length = length
+of the uncompressed name ≤ 255 octets - however many compression pointers were followed (no hypothesis) -/
+theorem mdns_name_accepts_only_legal (d : List Nat) (p : P) (n : Name) (p' : P) (h : parseName d p = .ok (n, p')) :
+    (∀ l ∈ n.labels, 1 ≤ l.length ∧ l.length ≤ 63) ∧ n.nameLen = (encName n.labels).length ∧ n.nameLen ≤ 255 :=
+  parseName_sound d p n p' h
+
 /-! ### resource records -/
 
 /-- **record framing round trip**: owner name, TYPE, CLASS, TTL, RDLENGTH, RDATA of any record type -/
@@ -499,6 +505,15 @@ theorem mdns_message_round_trip (h : HostCfg) (s : Svc) (hostTtl svcTtl cap : Na
   · rw [if_neg hc] at hb; exact hb
 example : BroadcastWF mdnsSampleHost mdnsSampleSvc 120 4500 :=
   ⟨by decide, by decide, by decide, by decide, by decide, by decide, by decide, by decide, by decide, by decide, by decide⟩
+
+/-- **browse response**: a message with only a PTR record `service type → instance` (no SRV) yields the PTR target
+as instance name, no port, no address, no TXT pair - the fallback branch of `parse_into_answer` -/
+theorem mdns_browse_response (stype inst : List (List Nat)) (ttl : Nat) (scope : Option Nat)
+    (h1 : NameWF stype) (h2 : NameWF inst) (h3 : ttl < 4294967296) :
+    parseIntoAnswer (responseBytes [browseRecord stype inst ttl]) scope =
+      .ok (some { inst := flatName inst, port := none, addrs := [], txt := [], scope := scope.getD 0 }) :=
+  parse_browse_response stype inst ttl scope h1 h2 h3
+example : NameWF (serviceTypeFqdn mdnsSampleSvc) ∧ NameWF (serviceFqdn mdnsSampleSvc) := by decide
 
 /-- a query written by `build_query` is not an answer, and its question section is walked to the end -/
 theorem mdns_query_ignored (name : List (List Nat)) (rtype : Nat) (scope : Option Nat) :
